@@ -112,6 +112,14 @@ def fmt_headers(style, status_line, fields):
         else:
             line = '%s: %s' % (n, v)
         out.append(line.encode('latin-1') + eol)
+    if style.startswith('pad'):
+        # header lines (status line included) totalling exactly N bytes: the client accepts
+        # up to 32768
+        want = int(style[3:])
+        have = sum(len(x) for x in out)
+        fill = want - have - len(b'X-Pad: ' + eol)
+        assert fill >= 0, (want, have)
+        out.append(b'X-Pad: ' + b'p' * fill + eol)
     out.append(eol)
     return b''.join(out)
 
